@@ -626,6 +626,12 @@ class StateMachine:
         # if there is no state to execute and there is a default
         # state, do the default state
         if state is None and self.__default_state is not None:
+            # falling back to the default state ends execution of the
+            # regular states, which always goes through done()
+            if self.__engaged:
+                done_called = True
+                self.done()
+
             state = self.__default_state
             if self.__state != state:
                 state.ran = False
